@@ -148,13 +148,28 @@ let handle fields impl : string option * string list =
     let rec take k l = if k = 0 then [] else match l with [] -> [] | x :: t -> x :: take (k - 1) t in
     let evs = List.map (fun e ->
       match String.split_on_char '~' e with
-      | [number; _hdr; hash; proof; oracle; truth] ->
+      | number :: _hdr :: hash :: proof :: oracle :: truth :: par ->
         let o = if mode = "nil" then None
                 else if oracle = "err" then Some (Err (n_ 8))
                 else Some (Ok (take (int_of_string oracle) tl)) in
-        ((((o, n_of_dec number), b (Util.bytes_of_hex hash)), b (Util.bytes_of_hex proof)), truth)
+        let par = match par with [t] when mode = "scripted" -> t | _ -> "" in
+        (((((o, n_of_dec number), b (Util.bytes_of_hex hash)), b (Util.bytes_of_hex proof)), truth), par)
       | _ -> failwith "event") (String.split_on_char ';' events) in
+    let pars = List.map snd evs in
+    let evs = List.map fst evs in
     let res = run_history_sha true [] [] (take (int_of_string k0) tl) (List.map fst evs) in
+    (* OVERLAPPING calls (same tag, consecutive): C03_overlapping_calls_order_independent - with one oracle answer that extends the
+       cache, the verdict of a call is the same whether it runs before or after the others of its group, so the sequential
+       run IS the specification of every interleaving; the cache is observed once, after the whole group *)
+    let res =
+      let arr = Array.of_list res and pa = Array.of_list pars in
+      let n = Array.length arr in
+      for i = n - 2 downto 0 do
+        if pa.(i) <> "" && pa.(i) = pa.(i + 1) then arr.(i) <- (fst arr.(i), snd arr.(i + 1))
+      done;
+      Array.to_list arr in
+    let overlapping = Array.of_list (List.mapi (fun i p ->
+      p <> "" && ((i > 0 && List.nth pars (i - 1) = p) || (i + 1 < List.length pars && List.nth pars (i + 1) = p))) pars) in
     let index_of (r : byte list) =
       let rec go i = function [] -> "?" | t :: rest -> if ub t = ub r then string_of_int i else go (i + 1) rest in go 0 tl in
     let tok = function Ok _ -> "ok" | Err _ -> "e" | Panic -> "p" in
@@ -169,7 +184,8 @@ let handle fields impl : string option * string list =
      | ["ok"; iv; ic] ->
        let iv = String.split_on_char ',' iv and ic = String.split_on_char '/' ic in
        List.iteri (fun i (((_, truth), (mv, _)), (v, cs)) ->
-         let step = Printf.sprintf " step=%d truth=%s impl=%s spec=%s cache=%s" (i + 1) truth v (tok mv) cs in
+         let step = Printf.sprintf " step=%d truth=%s impl=%s spec=%s cache=%s%s" (i + 1) truth v (tok mv) cs
+                      (if overlapping.(i) then " overlapping-calls" else "") in
          if v = "ok" && mv <> Ok () then
            fails := ((if starts truth "wrongslot" then "accepted-wrong-slot" else if truth = "corrupt" then "accepted-corrupted-sibling"
                       else "accepted-forged-proof") ^ step) :: !fails;
